@@ -1,6 +1,6 @@
 """C10 - DecisionTreeLogisticRegression is a consistent tree of binary classifiers."""
 from vf import loader
-from vf.core import Clause, Outcome, Violation, require
+from vf.core import Clause, Outcome, Violation, require, np_scalars, with_np
 from vf.estimators import CentroidClassifier, SkewedClassifier
 
 import numpy as np
@@ -16,7 +16,7 @@ RULE = ("Hypothesis draws binary data (two label values of any kind: ints incl. 
         "(probability rows are distributions, predict == classes_[p1>=0.5], decision_path shape / root column / path length <= "
         "tree_depth_ <= max_depth, terminal node listed by get_leaves_index) and a reference traversal of the documented tree_ "
         "attribute (go above iff the node classifier's p1 > threshold and that child exists) that must reproduce the marked path and "
-        "the returned probabilities for every row. Non-trivial: fitted tree with >= 3 nodes. Distinct by case JSON.")
+        "the returned probabilities for every row. Non-trivial: fitted tree with >= 3 nodes. One case in three passes its scalar hyper-parameters as NumPy scalars (numpy.bool_, numpy.int64, numpy.float64). Distinct by case JSON.")
 ASSUMPTIONS = ["rows whose probability at some node is within 1e-12 of the threshold are excluded from routing assertions (BLAS results depend on batch composition at 1e-16)",
                "the structural clauses read tree_/above/below/estimator/threshold/index; if these names are absent they are reported unavailable, never a violation",
                "intercept_sort_always with a non-linear base estimator is a documented refusal (AssertionError)"]
@@ -73,9 +73,9 @@ def check(case):
     Q = np.vstack([np.array(case["Q"], dtype=np.float64).reshape(-1, d), X[::3]])
     o = case["opts"]
     facts = dict(base=case["base"], algo=o["fit_improve_algo"], max_depth=o["max_depth"], label_kind=case["label_kind"])
-    m = _mod.DecisionTreeLogisticRegression(estimator=_base(case["base"]), max_depth=o["max_depth"], min_samples_split=o["min_samples_split"],
-                                            min_samples_leaf=o["min_samples_leaf"], fit_improve_algo=o["fit_improve_algo"],
-                                            p1p2=o["p1p2"], gamma=o["gamma"])
+    m = _mod.DecisionTreeLogisticRegression(estimator=_base(case["base"]), **np_scalars(dict(
+        max_depth=o["max_depth"], min_samples_split=o["min_samples_split"], min_samples_leaf=o["min_samples_leaf"],
+        fit_improve_algo=o["fit_improve_algo"], p1p2=o["p1p2"], gamma=o["gamma"]), case.get("np_params", False)))
     X0 = X.copy()
     try:
         r = m.fit(X, y)
@@ -187,6 +187,6 @@ def _cases(draw, tier="quick"):
 
 
 CLAUSES = [
-    Clause("tree", check, strategy=lambda tier: _cases(tier), quick=4000, thorough=60000, quick_shards=16,
+    Clause("tree", check, strategy=lambda tier: with_np(_cases(tier)), quick=4000, thorough=60000, quick_shards=16,
            doc="observable clauses + reference traversal of tree_"),
 ]
